@@ -70,26 +70,25 @@ def check(model, rep):
     ih = sp.methods.get('_IKHelper')
     if ih is None:
         raise AnalysisError('anchor vanished: SP._IKHelper')
-    calls = [n for n in walk_own(ih.node) if isinstance(n, ast.Assign) and isinstance(n.value, ast.Call) and src(n.value.func).endswith('SPIKinSpace')]
-    ok = False
-    msg = 'SPIKinSpace call not found'
-    if len(calls) == 1:
-        c = calls[0]
-        ilh = Inliner(ih)
-        args = [ilh.text(x) for x in c.value.args]
-        tg = [src(x) for x in c.targets[0].elts] if isinstance(c.targets[0], ast.Tuple) else []
-        want_args = ['bottom_plate_pos.gTM()', 'top_plate_pos.gTM()', 'self._bottom_joints_local', 'self._top_joints_local',
-                     'self._bottom_joints_space', 'self._top_joints_space']
-        want_tg = ['self.lengths', 'self._bottom_joints_space', 'self._top_joints_space']
-        ok = args == want_args and tg == want_tg
-        msg = 'arguments %s ; results stored in %s' % (args, tg)
-    rep.ob('R09.1', ih, 'SPIKinSpace(bottom pose, top pose, bottom-local, top-local, buffers) -> (lengths, bottom joints, top joints)', ok, msg)
-    rel = [n for n in walk_own(ih.node) if isinstance(n, ast.Assign) and src(n.targets[0]) == 'self._current_plate_transform_local']
-    ok = len(rel) == 1 and Inliner(ih).text(rel[0].value) == 'fsr.globalToLocal(bottom_plate_pos,top_plate_pos)'
-    rep.ob('R09.1', ih, 'relative transform = globalToLocal(bottom, top)', ok, 'relative transform is %s' % (src(rel[0].value) if rel else '?'))
+    tp_, bp_ = ih.params[1], ih.params[2]
+    ok, why = _tv.fi_matches_spec(model, ih, """
+        def _IKHelper(self, %s=None, %s=None):
+            %s, %s = self._bottomTopCheck(%s, %s)
+            L, bj, tj = fmr.SPIKinSpace(%s.gTM(), %s.gTM(), self._bottom_joints_local, self._top_joints_local,
+                                        self._bottom_joints_space, self._top_joints_space)
+            self.lengths = L
+            self._bottom_joints_space = bj
+            self._top_joints_space = tj
+            self._current_plate_transform_local = fsr.globalToLocal(%s, %s)
+            return np.copy(self.lengths), %s, %s
+        """ % (tp_, bp_, bp_, tp_, bp_, tp_, bp_, tp_, bp_, tp_, bp_, tp_))
+    rep.ob('R09.1', ih, 'SPIKinSpace(bottom pose, top pose, bottom-local, top-local, buffers) -> (lengths, bottom joints, top joints); '
+           'relative transform = globalToLocal(bottom, top)', ok, '_IKHelper does not pass / store the kernel\'s arguments and results in order: ' + why)
 
     # ---------------------------------------------------------------- R09.2
     rep.rule('R09.2', 'FK joint tables re-derived after every replacement of the plate-fixed joint coordinates (all paths, all public methods)')
+    from ..engine import peval as _pe
+    _pe.resolve_higher_order(model, model.cls(SPM, 'SP'))
     an = SPAnalysis(model)
     n_writers = 0
     for fi in an.public_methods():
